@@ -13,6 +13,7 @@ import (
 type earlyExit struct {
 	Fn, Key, Cond string
 	Pos           ast.Node
+	Atoms         *Atoms
 }
 
 // earlyExits inventories, in functions whose last result is an error, every `return …, nil`
@@ -21,6 +22,7 @@ type earlyExit struct {
 // the innermost enclosing if (or the case values).
 func (w *World) earlyExits(pkgPrefixes ...string) []earlyExit {
 	var out []earlyExit
+	count := map[string]int{}
 	var ks []string
 	for k := range w.Funcs {
 		ks = append(ks, k)
@@ -42,7 +44,6 @@ func (w *World) earlyExits(pkgPrefixes ...string) []earlyExit {
 		if len(res) == 0 || exprString(res[len(res)-1].Type) != "error" {
 			continue
 		}
-		count := map[string]int{}
 		var stack []ast.Node
 		ast.Inspect(fi.Decl.Body, func(n ast.Node) bool {
 			if n == nil {
@@ -115,13 +116,15 @@ func (w *World) earlyExits(pkgPrefixes ...string) []earlyExit {
 			}
 			sort.Strings(parts)
 			c := strings.Join(parts, ",")
-			base := fmt.Sprintf("%s:return-nil-error[%s]", fi.Key, c)
-			count[base]++
-			key := base
-			if count[base] > 1 {
-				key = fmt.Sprintf("%s#%d", base, count[base])
+			for _, host := range hostParts(w.hostKey(fi.Key)) {
+				base := fmt.Sprintf("%s:return-nil-error[%s]", host, c)
+				count[base]++
+				key := base
+				if count[base] > 1 {
+					key = fmt.Sprintf("%s#%d", base, count[base])
+				}
+				out = append(out, earlyExit{Fn: host, Key: key, Cond: c, Pos: rs, Atoms: a})
 			}
-			out = append(out, earlyExit{Fn: fi.Key, Key: key, Cond: c, Pos: rs})
 			return true
 		})
 	}
@@ -156,6 +159,8 @@ func ruleEarlyExitInventory(c *Ctx, r *Report, clause string, floor int, pkgPref
 		desc := "early success exit in " + s.Fn
 		if reason, ok := table[s.Key]; ok {
 			desc += ": " + reason
+		} else if w.decidesOnKnownInputs(c.VerifDir, s.Fn, s.Atoms) {
+			desc += ": not in the table, but it decides only on inputs this function's reviewed branches already decide on (a restructured conditional)"
 		} else {
 			viol = fmt.Sprintf("%s: %s returns early without an error under a condition [%s] that is not in the reviewed table (tables/earlyexits.json): whatever the rest of the function contributes for this element (metadata, graph nodes and edges, diagnostics) silently does not happen", w.pos(s.Pos.Pos()), s.Fn, s.Cond)
 		}
